@@ -46,17 +46,17 @@ type ExploreStats struct {
 }
 
 type explorer struct {
-	m      *Machine
-	multi  bool
-	stack  string // the container stack field
-	dis    map[string]Disagreement
-	undec  map[string]bool
-	stats  *ExploreStats
-	kind   string // parser | tokenizer | validator
-	workers int
+	m                  *Machine
+	multi              bool
+	stack              string // the container stack field
+	dis                map[string]Disagreement
+	undec              map[string]bool
+	stats              *ExploreStats
+	kind               string // parser | tokenizer | validator
+	workers            int
 	firstPop, lastCand int
-	noEvents bool // do not compare events (front-ends whose event timing legitimately differs from the reference)
-	noRef bool // explore the machine alone (no reference): reachability of panics, missing arms, no-progress, stale reads
+	noEvents           bool // do not compare events (front-ends whose event timing legitimately differs from the reference)
+	noRef              bool // explore the machine alone (no reference): reachability of panics, missing arms, no-progress, stale reads
 }
 
 func byteDesc(b int) string {
@@ -332,12 +332,12 @@ func Explore(m *Machine, starts []*State, multi bool, stats *ExploreStats, worke
 }
 
 type procResult struct {
-	succs []*pstate
-	dis   []Disagreement
-	undec []string
-	trans int
-	arms  int
-	mode  string
+	succs  []*pstate
+	dis    []Disagreement
+	undec  []string
+	trans  int
+	arms   int
+	mode   string
 	popped bool
 }
 
